@@ -1,5 +1,6 @@
 import QiVerif.Driver.Codec
 import QiVerif.Model.Gen
+import QiVerif.Model.Names
 namespace QiVerif.Driver.C05
 open QiVerif QiVerif.Driver QiVerif.Driver.Codec QiVerif.Sig QiVerif.Codec QiVerif.Decode QiVerif.Gen
 
@@ -24,8 +25,21 @@ def resD (r : Res (DVal × Bytes)) : String :=
   | .ok (d, rest) => renderD d ++ s!"+rest{rest.length}"
   | .error e => errStr e
 
+def namesOf (w : String) : List Names.Name :=
+  if w == "-" then [] else (w.splitOn ",").map String.toList
+
+def joinNames (ns : List Names.Name) : String :=
+  if ns.isEmpty then "-" else ",".intercalate (ns.map String.ofList)
+
 def run (args : List String) : String :=
   match args with
+  | ["gen.names", m, sg, p] =>
+    let a : Names.Actions := { methods := namesOf m, signals := namesOf sg, props := namesOf p }
+    let (rm, rs, rp) := Names.registered a
+    s!"m:{joinNames rm} s:{joinNames rs} p:{joinNames rp} proxy:{joinNames (rm.map Names.cleanMethodName)}"
+  | ["gen.clash", m, sg, p] =>
+    let a : Names.Actions := { methods := namesOf m, signals := namesOf sg, props := namesOf p }
+    if (Names.clashes a).isEmpty then "ok" else "clash"
   | "gen.pkg" :: _ => "ok"
   | "gen.pkgx" :: _ => "known-weakness"
   | "gen.call" :: _ :: _ :: retH :: parH :: toks =>
